@@ -28,6 +28,12 @@ def oracle(op, a):
         v = (a[0] << 64 | a[1]) | (a[2] << 64 | a[3])
     elif op in ("and", "andi"):
         v = (a[0] << 64 | a[1]) & (a[2] << 64 | a[3])
+    elif op == "addia":
+        v = (2 * (a[0] << 64 | a[1])) % M128
+    elif op == "subia":
+        v = 0
+    elif op in ("oria", "andia"):
+        v = a[0] << 64 | a[1]
     elif op == "neg":
         v = M128 - 1 - (a[0] << 64 | a[1])
     elif op == "shr":
@@ -98,6 +104,12 @@ def gen_cases(ctx):
         return rng.getrandbits(64)
     grid = [(h, l) for h in W[:13:2] + [W[12]] for l in (0, 1, (1 << 63), M64 - 1)]
     nrand = 300 if ctx.quick else 6000
+    # the in-place functions called with the same object for both arguments ("a == b is allowed")
+    for op in ("addia", "subia", "oria", "andia"):
+        for (ah, al) in grid:
+            cases.append((op, [ah, al]))
+        for _ in range(nrand // 2):
+            cases.append((op, [rw(), rw()]))
     for op in ("add", "sub", "addi", "subi", "or", "and", "ori", "andi", "cmp", "eq"):
         for (ah, al) in grid[::3]:
             for (bh, bl) in grid[::4]:
